@@ -18,7 +18,8 @@ JOIN_CORR = [
     ('r_attr_unknown', AE), ('l_attr_numeric', AE), ('r_attr_numeric', AE),
     ('l_out_unknown', AE), ('r_out_unknown', AE), ('l_key_dup', AE),
     ('r_key_dup', AE), ('l_key_nan', AE), ('r_key_nan', AE),
-    ('threshold_low', AE), ('threshold_high', AE), ('comp_op_bad', AE)]
+    ('threshold_low', AE), ('threshold_high', AE), ('comp_op_bad', AE),
+    ('l_key_dup_inplace', AE), ('r_key_dup_inplace', AE)]
 ED_EXTRA = [('tokenizer_not_qgram', AE)]
 FILTER_CTOR_CORR = [('tokenizer_not_tok', TE), ('measure_unknown', TE),
                     ('threshold_low', AE), ('threshold_high', AE),
@@ -30,14 +31,16 @@ FT_CORR = [('ltable_not_df', TE), ('rtable_not_df', TE),
            ('l_attr_unknown', AE), ('r_attr_unknown', AE),
            ('l_attr_numeric', AE), ('r_attr_numeric', AE),
            ('l_out_unknown', AE), ('r_out_unknown', AE), ('l_key_dup', AE),
-           ('r_key_dup', AE), ('l_key_nan', AE), ('r_key_nan', AE)]
+           ('r_key_dup', AE), ('l_key_nan', AE), ('r_key_nan', AE),
+           ('l_key_dup_inplace', AE), ('r_key_dup_inplace', AE)]
 FC_CORR = [('candset_not_df', TE), ('c_l_unknown', AE), ('c_r_unknown', AE),
            ('ltable_not_df', TE), ('rtable_not_df', TE),
            ('l_key_unknown', AE), ('r_key_unknown', AE),
            ('l_attr_unknown', AE), ('r_attr_unknown', AE),
            ('l_attr_numeric', AE), ('r_attr_numeric', AE),
            ('l_key_dup', AE), ('r_key_dup', AE), ('l_key_nan', AE),
-           ('r_key_nan', AE)]
+           ('r_key_nan', AE), ('l_key_dup_inplace', AE),
+           ('r_key_dup_inplace', AE)]
 AM_CORR = [('candset_not_df', TE), ('c_l_unknown', AE), ('c_r_unknown', AE),
            ('ltable_not_df', TE), ('rtable_not_df', TE),
            ('l_key_unknown', AE), ('r_key_unknown', AE),
@@ -45,7 +48,8 @@ AM_CORR = [('candset_not_df', TE), ('c_l_unknown', AE), ('c_r_unknown', AE),
            ('l_out_unknown', AE), ('r_out_unknown', AE),
            ('tokenizer_not_tok', TE), ('comp_op_bad', AE),
            ('l_key_dup', AE), ('r_key_dup', AE), ('l_key_nan', AE),
-           ('r_key_nan', AE)]
+           ('r_key_nan', AE), ('l_key_dup_inplace', AE),
+           ('r_key_dup_inplace', AE)]
 PROFILE_CORR = [('table_not_df', TE), ('attr_unknown', AE)]
 
 
@@ -165,6 +169,18 @@ def corrupt(g, base, corr):
         cur = list(cur)
         cur.insert(rng.randint(0, len(cur)), 'nope')
         op[corr[0] + '_out'] = cur
+    elif corr.endswith('_key_dup_inplace'):
+        # the caller's own table object is given a duplicate key in place for
+        # the duration of the call (and is restored afterwards by the harness):
+        # the same object was valid in earlier calls of the history
+        side = corr[0]
+        if not isinstance(op[side], str):
+            return None
+        if len(g.case['tables'][op[side]]['rows']) < 2:
+            return None
+        op['inplace'] = {'side': side, 'how': 'dup',
+                         'i': rng.randrange(10 ** 6),
+                         'j': rng.randrange(10 ** 6)}
     elif corr.endswith('_key_dup') or corr.endswith('_key_nan'):
         side = corr[0]
         if not isinstance(op[side], str):
@@ -272,6 +288,15 @@ def gen_reject_cell(g, cell):
     bad = corrupt(g, base, corr)
     if bad is None:
         return None
+    if corr.endswith('_inplace'):
+        # the valid twin of the call first, on the very same objects
+        import copy
+        first = copy.deepcopy(base)
+        for k in ('variants', 'twin', 'fault'):
+            first.pop(k, None)
+        if first['op'] in ('filter_candset', 'apply_matcher', 'join',
+                           'filter_tables'):
+            g.case['history'].append(first)
     # a rejected call must not depend on a result of an earlier call that may
     # be absent
     return {'op': 'reject', 'base': bad, 'corruption': corr, 'expect': expect,
